@@ -2,6 +2,13 @@ package main
 
 func init() {
 	property(&Property{
+		ID:    "C18",
+		Rules: []string{"STATS-PAIR", "STATS-ERR", "STATS-ORDER", "STATS-PURE", "IC-ONCE", "IC-PASSTHRU", "ROLE-AGREE"},
+		Decides: "Decides stats.",
+		NotDecided: "payload events.",
+		Assumptions: commonAssumptions,
+	})
+	property(&Property{
 		ID:    "C07",
 		Rules: []string{"PARAM-ORDER", "LAST-WRITER", "DECODE-THEN-PARAMS"},
 		Decides: "Decides precedence.",
